@@ -181,6 +181,8 @@ pub trait Check {
     fn units(&self, ctx: &Ctx) -> usize;
     fn run_unit(&self, ctx: &Ctx, idx: usize) -> UnitResult;
     fn replay(&self, ctx: &Ctx, case: &Value) -> UnitResult;
+    /// print programs for the reference engine as JSONL (checks with goldens only)
+    fn dump(&self, _ctx: &Ctx, _singles: bool) {}
 }
 
 pub fn truncate(s: &str, n: usize) -> String {
